@@ -37,6 +37,8 @@ def _get_story_duration(story_tag: Element) -> Optional[float]:
         payload = metadata.find('mosPayload')
     except AttributeError:
         return
+    if payload is None:
+        return
 
     try:
         return float(payload.find('StoryDuration').text)
